@@ -1,5 +1,5 @@
 (* Proofs/FormatterParseMethodsFacts.v — C08: the hand models of the parse side (Model/FormatterParse.v: get_parsed_value, get_parsed_locale_value, get_parsed_values,
-   fold_matches, parse) EQUAL the translation of the method bodies of /repo's formatter.py (Gen/FormatterParseMethods.v, regenerated on every run), for every token,
+   fold_matches, check_parsed, parse; FormatterParsePrims.parse_meridiem = the a / A branch of the model) EQUAL the translation of the method bodies of /repo's formatter.py (Gen/FormatterParseMethods.v, regenerated on every run), for every token,
    text, parsed state, locale and format. *)
 From Coq Require Import ZArith List Bool Lia.
 From PV Require Import Lib.PyBase Spec.Cal Model.FormatterBase Gen.FormatterTables Gen.LocaleTables Model.Formatter Model.FormatterParse Model.FormatterParsePrims.
@@ -84,9 +84,27 @@ Proof.
   all: try (destruct (mem_str value zones); reflexivity).
 Qed.
 
+(* the a / A branch *)
+Theorem gen_parse_meridiem_eq loc tok value p : gen_parse_meridiem loc tok value p = parse_meridiem loc tok value p.
+Proof.
+  unfold gen_parse_meridiem, parse_meridiem, T_a. cbv zeta.
+  destruct (l_am loc) as [am|]; destruct (l_pm loc) as [pm|]; try reflexivity.
+  cbn [need_strs fold_right bind].
+  destruct (str_eqb tok [97]); cbn [andb].
+  - unfold py_lower. cbn [lower_all]. unfold py_lower.
+    destruct (all_ascii value); destruct (all_ascii am); destruct (all_ascii pm); cbn [bind andb negb]; try reflexivity.
+    cbn [mem_str existsb index_of].
+    destruct (str_eqb (map ascii_lower value) (map ascii_lower am)); cbn [orb negb bind]; [reflexivity|].
+    destruct (str_eqb (map ascii_lower value) (map ascii_lower pm)); cbn [orb negb bind]; reflexivity.
+  - cbn [negb mem_str existsb index_of].
+    destruct (str_eqb value am); cbn [orb negb bind]; [reflexivity|].
+    destruct (str_eqb value pm); cbn [orb negb bind]; reflexivity.
+Qed.
+
 Theorem gen_get_parsed_locale_value_eq loc tok value p : gen_get_parsed_locale_value loc tok value p = get_parsed_locale_value loc tok value p.
 Proof.
-  unfold gen_get_parsed_locale_value, gen_get_parsed_locale_value_, get_parsed_locale_value, T_MMMM, T_MMM, T_Do, T_dddd, T_ddd, T_dd, T_a, T_A, leading_int, parse_meridiem. cbv zeta.
+  unfold gen_get_parsed_locale_value, gen_get_parsed_locale_value_. rewrite gen_parse_meridiem_eq.
+  unfold get_parsed_locale_value, T_MMMM, T_MMM, T_Do, T_dddd, T_ddd, T_dd, T_a, T_A, leading_int, parse_meridiem. cbv zeta.
   repeat (match goal with |- (if ?c then _ else _) = (if ?c then _ else _) => destruct c end);
     try reflexivity;
     try (destruct (match_translation _ value) as [v|e]; reflexivity);
@@ -112,16 +130,82 @@ Proof.
   destruct (get_parsed_values zones loc names cs p) as [p'|e]; cbn [bind]; [apply IH|reflexivity].
 Qed.
 
+(* ------------------------------------------------------------------ _check_parsed *)
+Lemma quarter_loop_jan1 y q : quarter_loop (jan1 y) q = if (1 <=? q) && (q <=? 4) then Ok (y, 3 * (q - 1) + 1, 1) else Unsupported.
+Proof.
+  unfold quarter_loop. cbn [quarter_loop_f].
+  change (quarter_of (jan1 y)) with 1. change (d3_day (jan1 y)) with 1. change (add3 (jan1 y)) with (y, 4, 1).
+  change (quarter_of (y, 4, 1)) with 2. change (d3_day (y, 4, 1)) with 1. change (add3 (y, 4, 1)) with (y, 7, 1).
+  change (quarter_of (y, 7, 1)) with 3. change (d3_day (y, 7, 1)) with 1. change (add3 (y, 7, 1)) with (y, 10, 1).
+  change (quarter_of (y, 10, 1)) with 4. change (28 <? 1) with false. cbv iota.
+  destruct (Z.eqb_spec 1 q); [subst; reflexivity|]. destruct (Z.eqb_spec 2 q); [subst; reflexivity|].
+  destruct (Z.eqb_spec 3 q); [subst; reflexivity|]. destruct (Z.eqb_spec 4 q); [subst; reflexivity|].
+  replace ((1 <=? q) && (q <=? 4)) with false; [reflexivity|]. symmetry. apply andb_false_iff. destruct (Z.leb_spec 1 q); [right; apply Z.leb_gt; lia | left; reflexivity].
+Qed.
+
+Lemma next_weekday_week_eve y m d dow :
+  next_weekday (week_eve (y, m, d)) dow =
+  if (dow <? 0) || (6 <? dow) then Raise E_ValueError
+  else let n := ymd2ord y m d in let target := n - weekday0 n + dow in
+       if (target <? 1) || (3652059 <? target) then Unsupported else Ok (ord2ymd target).
+Proof.
+  unfold next_weekday, week_eve. cbv zeta. replace (ymd2ord y m d - weekday0 (ymd2ord y m d) - 1 + 1 + dow) with (ymd2ord y m d - weekday0 (ymd2ord y m d) + dow) by lia. reflexivity.
+Qed.
+
+Ltac tail rs now :=
+  unfold parse_ordinal, mk_date, or_z, or_else; cbv beta iota; cbn [bind negb d3_year d3_month d3_day];
+  (* day of year *)
+  repeat match goal with
+  | |- context [if ?c then bind ((if rs then doy_to_md_rs else doy_to_md_py) ?y ?d) _ else Unsupported] =>
+      destruct c; [destruct ((if rs then doy_to_md_rs else doy_to_md_py) y d) as [[? ?]|] | ]; cbv beta iota; cbn [bind negb d3_year d3_month d3_day]; try reflexivity
+  end;
+  (* day of week *)
+  repeat match goal with
+  | |- context [date_ok ?a ?b ?c] => destruct (date_ok a b c); cbv beta iota; cbn [bind negb d3_year d3_month d3_day]; try reflexivity
+  end;
+  try rewrite next_weekday_week_eve; cbv zeta;
+  repeat match goal with
+  | |- context [if ?c then Raise E_ValueError else _] => destruct c; cbv beta iota; cbn [bind negb]; try reflexivity
+  | |- context [if ?c then Unsupported else _] => destruct c; cbv beta iota; cbn [bind negb]; try reflexivity
+  end;
+  repeat match goal with |- context [ord2ymd ?t] => destruct (ord2ymd t) as [[? ?] ?] end; cbv beta iota; cbn [bind negb d3_year d3_month d3_day]; try reflexivity.
+
+Ltac mer pm hour :=
+  destruct pm as [[|]|]; destruct hour as [h|]; cbn [bind]; try reflexivity;
+  try (match goal with |- context [tuple_ge ?a ?b] => destruct (tuple_ge a b) as [[|]|] end; cbn [bind]; try rewrite Z.add_0_r; try reflexivity).
+
+Theorem gen_check_parsed_eq rs p now : gen_check_parsed rs p now = check_parsed rs p now.
+Proof.
+  destruct p as [year month day hour minute second micro tz quarter dow doy pm ts].
+  unfold gen_check_parsed, check_parsed. cbn [p_year p_month p_day p_hour p_minute p_second p_micro p_tz p_quarter p_dow p_doy p_pm p_ts]. cbv zeta.
+  destruct ts as [[secs us]|].
+  - unfold ts_has_point, ts_frac_us, ts_local_time. cbn [fst snd]. destruct ((ts_min <=? secs) && (secs <=? ts_max)); [|reflexivity].
+    destruct (local_time_of rs secs us) as [[[[[[[a b] c] d] e] f] g]|]; reflexivity.
+  - unfold check_parsed_fields. cbn [p_year p_month p_day p_hour p_minute p_second p_micro p_tz p_quarter p_dow p_doy p_pm p_ts].
+    destruct quarter as [q|]; destruct year as [y|].
+    + unfold mk_date at 1. destruct (date_ok y 1 1); cbn [negb bind]; [|reflexivity]. cbn [d3_year]. rewrite quarter_loop_jan1.
+      destruct ((1 <=? q) && (q <=? 4)); cbn [bind]; [|reflexivity]. cbn [d3_year d3_month d3_day].
+      destruct doy as [doy|]; destruct dow as [dow|]; tail rs now; mer pm hour.
+    + unfold jan1_of_now. destruct (date_ok (n_year now) 1 1); cbn [negb bind]; [|reflexivity]. cbn [d3_year]. rewrite quarter_loop_jan1.
+      destruct ((1 <=? q) && (q <=? 4)); cbn [bind]; [|reflexivity]. cbn [d3_year d3_month d3_day].
+      destruct doy as [doy|]; destruct dow as [dow|]; tail rs now; mer pm hour.
+    + cbn [bind]. destruct doy as [doy|]; destruct dow as [dow|]; tail rs now; mer pm hour.
+    + cbn [bind]. destruct doy as [doy|]; destruct dow as [dow|]; tail rs now; mer pm hour; destruct month; reflexivity.
+Qed.
+
 Theorem gen_parse_eq rs zones lname now time fmt : gen_parse rs zones lname now time fmt = parse rs zones lname now time fmt.
 Proof.
   unfold gen_parse, parse, parse_finish. cbv zeta.
   destruct (forallb _ _); [reflexivity|]. destruct (find_locale lname) as [loc|]; [|reflexivity].
   destruct (assemble loc _) as [els|e]; cbn [bind]; [|reflexivity].
   destruct (has_dup _); [reflexivity|]. destruct (negb _); [reflexivity|].
-  destruct (sub_matches _ _ _) as [ms|]; [|reflexivity]. rewrite gen_fold_matches_eq. reflexivity.
+  destruct (sub_matches _ _ _) as [ms|]; [|reflexivity]. rewrite gen_fold_matches_eq.
+  destruct (fold_matches _ _ _ _ _) as [p'|e]; cbn [bind]; [apply gen_check_parsed_eq|reflexivity].
 Qed.
 
 Print Assumptions gen_get_parsed_value_eq.
 Print Assumptions gen_get_parsed_locale_value_eq.
 Print Assumptions gen_get_parsed_values_eq.
+Print Assumptions gen_parse_meridiem_eq.
+Print Assumptions gen_check_parsed_eq.
 Print Assumptions gen_parse_eq.
